@@ -146,6 +146,26 @@ pub fn context_variants() -> Vec<(Vec<Inst>, Shape)> {
         let und = Inst::new("Undef", Some(70), Some(74), vec![]);
         let cst = Inst::new("Constant", Some(70), Some(72), vec![lit.clone()]);
         let sw = Inst::new("Switch", None, None, vec![Arg::IdRef(74), Arg::IdRef(40), lit.clone(), Arg::IdRef(41)]);
+        // .. and the type declared INSIDE the body of a first, complete function while value and consumer stand in a second one
+        {
+            let mut p = vec![f1[0].clone(), f1[1].clone(), decl.clone(), f1[2].clone(), f1[3].clone(), f2[0].clone(), f2[1].clone()];
+            out.push((p.clone(), Shape { id: format!("Constant:{}:type-declared-inside-an-earlier-function", wn), inst: cst.clone() }));
+            p.push(und.clone());
+            if wn == "u64" {
+                out.push((p.clone(), Shape { id: format!("Switch:{}:type-declared-inside-an-earlier-function", wn), inst: sw.clone() }));
+                // two 64-bit cases: six words that could also be read as three 32-bit cases
+                let sw2 = Inst::new("Switch", None, None, vec![Arg::IdRef(74), Arg::IdRef(40), lit.clone(), Arg::IdRef(41), Arg::Lit64(0x0000_0007_0000_0009), Arg::IdRef(42)]);
+                out.push((p.clone(), Shape { id: format!("Switch:{}:type-declared-inside-an-earlier-function:two-cases", wn), inst: sw2.clone() }));
+                let mut p2 = p.clone();
+                p2.pop();
+                p2.push(Inst::new("FunctionParameter", Some(70), Some(74), vec![]));
+                p2.push(Inst::new("Label", None, Some(86), vec![]));
+                out.push((p2, Shape { id: format!("Switch:{}:on-a-parameter-of-a-type-declared-inside-an-earlier-function:two-cases", wn), inst: sw2 }));
+                // the value too inside the first function, only the switch in the second
+                let q = vec![f1[0].clone(), f1[1].clone(), decl.clone(), und.clone(), f1[2].clone(), f1[3].clone(), f2[0].clone(), f2[1].clone()];
+                out.push((q, Shape { id: format!("Switch:{}:type-and-value-inside-an-earlier-function", wn), inst: sw.clone() }));
+            }
+        }
         for (pn, pre) in [("function", vec![f1[0].clone()]), ("function+label", vec![f1[0].clone(), f1[1].clone()]), ("two-functions", vec![f1[0].clone(), f1[1].clone(), f1[2].clone(), f1[3].clone(), f2[0].clone(), f2[1].clone()])] {
             let mut p = pre.clone();
             p.push(decl.clone());
